@@ -674,6 +674,33 @@ def main(tier, pid='C01'):
                 herr.append('%s: counterexample for "%s" %s (%s)' % (json.dumps(cfg), s['label'], why, rp))
             elif key in known: known_hits.append((key, known[key]['what']))
             else: violations.append((key, rp, '%s -> %s' % (json.dumps(cfg), rep)))
+    if pid == 'C01':
+        # supporting harness: the last statements of an iteration re-establish the invariants I1-I3 assumed above
+        from vp.checks import c01_tail
+        tcfgs = [{'dims': d_, '_timeout_ms': 20000 if tier == 'quick' else 120000} for d_ in c01_tail.DIMS]
+        for r in common.run_jobs('vp.checks.c01_tail', 'job', tcfgs):
+            cfg = {k: v for k, v in r['cfg'].items() if not k.startswith('_')}
+            if not r['ok']:
+                herr.append('tail %s: %s' % (json.dumps(cfg), r['err'])); continue
+            res = r['res']
+            for key in ('total', 'unsat', 'sat', 'unknown'): ev.obl[key] += res['obl'][key]
+            ev.solver_s += res['solver_s']; paths += res['paths']
+            if not res['reached']: herr.append('tail %s: end of the loop body not reached' % json.dumps(cfg))
+            for e in res['errors']: herr.append('tail %s: %s' % (json.dumps(cfg), e))
+            for u in res['unknown']: inconc.append('tail %s: %s' % (json.dumps(cfg), u))
+            for s_ in res['sat']:
+                key = 'conelp-tail:' + s_['label'].split(':')[0]
+                if key in seen: seen[key] += 1; continue
+                seen[key] = 1
+                rp = common.write_replay(pid, json.dumps(cfg, sort_keys=True) + s_['label'], {'property': pid, 'tail': True, 'cfg': cfg, 'label': s_['label'], 'model': s_['model']})
+                rr = common.run_conc(['-m', 'vp.checks.c01_tail', '--replay-conc', rp])
+                try: dd = json.loads(rr.stdout.strip().splitlines()[-1])
+                except Exception: dd = {}
+                if dd.get('precond_ok') and dd.get('violated'):
+                    if key in known: known_hits.append((key, known[key]['what']))
+                    else: violations.append((key, rp, 'end of the conelp iteration, %s -> %s' % (json.dumps(cfg), dd['violated'][:2])))
+                else:
+                    herr.append('tail %s: counterexample for "%s" not reproduced (%s)' % (json.dumps(cfg), s_['label'], rp))
     need = ('optimal',) if pid in ('C01', 'C03', 'C04') else ('primal infeasible', 'dual infeasible')
     for s_ in need:
         if not reach.get(s_): herr.append("reachability twin: no exactly-satisfiable path returning '%s'" % s_)
@@ -689,6 +716,7 @@ def main(tier, pid='C01'):
     ev.assumptions += ['loop invariant at the head of an arbitrary iteration: tau>0, kappa>0 (I1); gap = <s,z>/tau^2 (I2); s,z strictly inside the cone (I3)',
                        'exact real arithmetic (floats as reals); NaN/Inf excluded',
                        'user KKT solver stub ends the path after the exit block (not part of the claim)',
+                       'C01 only: preservation of I1, I2 (and I3 for l blocks) by the last statements of an iteration is decided by the tail harness from an arbitrary VALID scaling; the step-length computation in between is outside',
                        "'s' blocks of order <= 2 (closed-form eigenvalue); start points concrete (cone identity)",
                        'blas/base shim is a reference model; counterexamples are replayed on the real build before being reported']
     return common.finish(ev, violations, known_hits, herr, inconc)
